@@ -30,6 +30,10 @@ def run(ctx):
     cleared(ctx)
     clear_buf(ctx)
     reload_(ctx)
+    # a relay serving a partially buffered version must not label rows with seqs it does not hold (added after C03-c):
+    # otherwise the requester's gap check reaches zero and a strict subset of the transaction becomes visible
+    from . import C05
+    C05.buffered(ctx, rid="C03.relay")
 
 
 # ------------------------------------------------------------------------------------------------ writers
@@ -372,11 +376,11 @@ def cols(ctx):
 
 
 # ------------------------------------------------------------------------------------------------ cleared fast path
-def cleared(ctx):
+def cleared(ctx, rid="C03.cleared"):
     """a chunk may be booked as `Cleared` (whole version known, nothing to apply) only if it is COMPLETE and empty: an empty chunk that
     covers only part of 0..=last_seq is seq coverage of a partial version and must go through process_single_version"""
     F = ctx.F
-    R = ctx.rule("C03.cleared", "K2+K9", "process_multiple_changes books a received changeset as Cleared without applying it only when it is both complete and empty")
+    R = ctx.rule(rid, "K2+K9", "process_multiple_changes books a received changeset as Cleared without applying it only when it is both complete and empty")
     fam = F.family(F.get(PMC)) if F.get(PMC) else []
     b = next((x for x in fam if any((c.t.get("r") or c.f) == PSV for c in x.calls)), None)
     if not R.anchor(b, "closure", "closure of process_multiple_changes calling process_single_version"):
